@@ -90,3 +90,9 @@ NM5_OK = {
     "ConstraintOverrideRollbackVisitor.visit_constraint_override|depth": "nesting counter of the override wrapper, which is itself installed per call and "
                                                                          "removed by this very visitor",
 }
+
+# RS13: RandInfoBuilder visit methods that may stop or gate the walk on the pass number (method -> reason)
+RS13_PASS_GATES = {
+    "visit_covergroup": "covergroups are only met inside generators, whose coverage goals are turned into constraints in pass 1; nothing below a "
+                        "covergroup can hold a solve_order directive or a dynamic-constraint reference",
+}
